@@ -437,6 +437,8 @@ def gen_value(ty, rnd, mod, fields_decl, depth=0):
             return None
         if n == 'AbsList':
             return []
+        if n == 'AbsDict':
+            return {}
         if n == 'ValSeq':
             return [gen_value(ast.Name('Val'), rnd, mod, fields_decl) for _ in range(rnd.randrange(4))]
         if n == 'Float':
